@@ -13,6 +13,7 @@
 //	import-vs-local       {% import "lib" %} + calls    ==  the library's declarations written in the importing file
 //	for-import-vs-qualified  {% import "f" for N %}{{ N() }} (also period imports; other imported files declare N too)  ==  {% import q "f" %}{{ q.N() }}
 //	dead-code-removed     a page with renders inside code that never runs (if false, runtime-false if, else of a true if, macro never called)  ==  the page without it
+//	using-vs-macro        {% show E(itea); using %}BODY{% end using %}  ==  {% macro U_ %}BODY{% end macro %}{% show E(U_()) %}, E(x) = x | x + render "p" | render "p" + x
 //	default-missing       {{ render "missing" default E }} == {{ E }}
 //	default-present       {{ render "f" default E }}       == {{ render "f" }}
 //
@@ -47,7 +48,7 @@ const (
 
 func (prop) Drive(d *core.Driver) error {
 	n := d.N(1200, 30000)
-	d.T.Rule = "a set of 1-5 partials of mixed formats in nested directories (rendering each other through relative and absolute paths, with same-named decoy files in other directories), optional imported libraries with 1-3 macros (with/without parameters, package variables, calling each other) is generated; one of ten rewrites produces the second file set; both are built and run with the same globals (strings holding < & \" ', ints, an HTML value, a slice). distinct_nontrivial counts distinct (relation, formats involved / import form, outcome class, whether nested renders, macros calls, conversions occurred) signatures among pairs where both sides produced output, plus agreeing-error signatures"
+	d.T.Rule = "a set of 1-5 partials of mixed formats in nested directories (rendering each other through relative and absolute paths, with same-named decoy files in other directories), optional imported libraries with 1-3 macros (with/without parameters, package variables, calling each other) is generated; one of eleven rewrites produces the second file set; both are built and run with the same globals (strings holding < & \" ', ints, an HTML value, a slice). distinct_nontrivial counts distinct (relation, formats involved / import form, outcome class, whether nested renders, macros calls, conversions occurred) signatures among pairs where both sides produced output, plus agreeing-error signatures"
 	d.T.Assumptions = []string{
 		"text atoms start and end with a non-space byte, so the documented removal of statement-only lines cannot make the two sides differ",
 		"globals are declared with values (the declared-without-value path is C17)",
@@ -76,7 +77,18 @@ var (
 
 func globals() native.Declarations {
 	s, n, h, list := gS, gN, gH, append([]string{}, gList...)
-	return native.Declarations{"s": &s, "n": &n, "h": &h, "list": &list}
+	// once(key) is used by the initialisers of package variables: 1 the
+	// first time it is called with a key, 100 times the number of calls after
+	// that, so a variable initialised twice (or again at every use) shows
+	calls := map[string]int{}
+	once := func(key string) int {
+		calls[key]++
+		if calls[key] == 1 {
+			return 1
+		}
+		return 100 * calls[key]
+	}
+	return native.Declarations{"s": &s, "n": &n, "h": &h, "list": &list, "once": once}
 }
 
 func (prop) Work(c core.Case) core.Result {
@@ -154,6 +166,12 @@ func (prop) Work(c core.Case) core.Result {
 	}
 	if n := alternations(cd.A.Files, cd.A.Root); n >= 2 {
 		feat += fmt.Sprintf("+alt%d", n)
+	}
+	if strings.Contains(all, "; using %}") {
+		feat += "+using"
+	}
+	if strings.Contains(all, "once(") {
+		feat += "+init-call"
 	}
 	if strings.Contains(all, "{% defer") {
 		feat += "+defer"
